@@ -195,6 +195,8 @@ def z3_of(v):
     """z3 term of a scalar value."""
     if isinstance(v, Sym):
         return v.z
+    if isinstance(v, z3.ExprRef):
+        return v
     if isinstance(v, bool):
         return z3.BoolVal(v)
     if isinstance(v, int):
